@@ -7,6 +7,8 @@ from fractions import Fraction
 
 import numpy as np
 
+from .sharing import sharing as _sharing
+
 from .core import frac, isnan, nrs, rs
 
 warnings.simplefilter("ignore")
@@ -425,5 +427,5 @@ def run(case: dict) -> tuple[list, list]:
     exc_log: list = []
     for op in case["ops"]:
         ret = step(s, op, exc_log)
-        outs.append({"ret": ret, "regs": [None if h is None else snap1(h) for h in s.regs]})
+        outs.append({"ret": ret, "regs": [None if h is None else snap1(h) for h in s.regs], "_sharing": _sharing(s.regs)})
     return outs, exc_log
